@@ -435,50 +435,98 @@ func (w *Writer) Write(v interface{}) *Writer {
 
 	switch val := v.(type) {
 	case *byte:
+		if val == nil {
+			w.err = fmt.Errorf("cannot write nil pointer: %T", v)
+			return w
+		}
 		w.writeByte(*val)
 	case byte:
 		w.writeByte(val)
 	case *int8:
+		if val == nil {
+			w.err = fmt.Errorf("cannot write nil pointer: %T", v)
+			return w
+		}
 		w.WriteInt8(*val)
 	case int8:
 		w.WriteInt8(val)
 	case *int16:
+		if val == nil {
+			w.err = fmt.Errorf("cannot write nil pointer: %T", v)
+			return w
+		}
 		w.WriteInt16(*val)
 	case int16:
 		w.WriteInt16(val)
 	case *uint16:
+		if val == nil {
+			w.err = fmt.Errorf("cannot write nil pointer: %T", v)
+			return w
+		}
 		w.WriteUint16(*val)
 	case uint16:
 		w.WriteUint16(val)
 	case *uint32:
+		if val == nil {
+			w.err = fmt.Errorf("cannot write nil pointer: %T", v)
+			return w
+		}
 		w.WriteUint32(*val)
 	case uint32:
 		w.WriteUint32(val)
 	case *int32:
+		if val == nil {
+			w.err = fmt.Errorf("cannot write nil pointer: %T", v)
+			return w
+		}
 		w.WriteInt32(*val)
 	case int32:
 		w.WriteInt32(val)
 	case *uint64:
+		if val == nil {
+			w.err = fmt.Errorf("cannot write nil pointer: %T", v)
+			return w
+		}
 		w.WriteUint64(*val)
 	case uint64:
 		w.WriteUint64(val)
 	case *int64:
+		if val == nil {
+			w.err = fmt.Errorf("cannot write nil pointer: %T", v)
+			return w
+		}
 		w.WriteInt64(*val)
 	case int64:
 		w.WriteInt64(val)
 	case *float32:
+		if val == nil {
+			w.err = fmt.Errorf("cannot write nil pointer: %T", v)
+			return w
+		}
 		w.WriteFloat32(*val)
 	case float32:
 		w.WriteFloat32(val)
 	case *float64:
+		if val == nil {
+			w.err = fmt.Errorf("cannot write nil pointer: %T", v)
+			return w
+		}
 		w.WriteFloat64(*val)
 	case float64:
 		w.WriteFloat64(val)
 	case *bool:
+		if val == nil {
+			w.err = fmt.Errorf("cannot write nil pointer: %T", v)
+			return w
+		}
 		w.WriteBool(*val)
 	case bool:
 		w.WriteBool(val)
 	case *string:
+		if val == nil {
+			w.err = fmt.Errorf("cannot write nil pointer: %T", v)
+			return w
+		}
 		w.WriteString(*val)
 	case string:
 		w.WriteString(val)
@@ -504,6 +552,9 @@ func (w *Writer) Write(v interface{}) *Writer {
 //   - 指针：自动解引用，nil 指针会返回错误
 func (w *Writer) writeReflect(v interface{}) error {
 	rv := reflect.ValueOf(v)
+	if !rv.IsValid() {
+		return fmt.Errorf("cannot write nil value")
+	}
 
 	// 处理指针类型，自动解引用
 	for rv.Kind() == reflect.Ptr {
@@ -541,8 +592,16 @@ func (w *Writer) writeReflect(v interface{}) error {
 		return nil
 
 	default:
-		w.Write(v)
-		return nil
+		// 仅当（解引用后的）值恰为 Write 直接支持的基础类型时才交回 Write；
+		// 其余类型（int、uint、具名类型、map、chan、func、接口等）返回错误，避免 Write 与 writeReflect 无限互相递归导致栈溢出
+		if rv.CanInterface() {
+			switch val := rv.Interface().(type) {
+			case uint8, int8, uint16, int16, uint32, int32, uint64, int64, float32, float64, bool, string:
+				w.Write(val)
+				return w.err
+			}
+		}
+		return fmt.Errorf("unsupported type for writing: %T", v)
 	}
 }
 
